@@ -154,6 +154,7 @@ def run_pipeline(case, data, tmpdir, script_override=None, decisions=None, strat
                                         timeout=0.2)
             saver.vf_name = "saver"
             holder["saver"] = saver
+            reader.vf_victim = lambda: saver.__dict__.get("_vf_state")
             holder["saver_path"] = path
             saver.start()
             src = H.OuterProxy(saver)
@@ -238,6 +239,9 @@ def run_pipeline(case, data, tmpdir, script_override=None, decisions=None, strat
             if saver is not None:
                 saver.join()  # as the command line does
 
+    # a consumer working off a long backlog through a mailbox the scheduler cannot see into makes no event the scheduler counts
+    # as progress: the no-progress verdict allows for as many steps as there are blocks to work off
+    strategy.allow_idle_steps = max(getattr(strategy, "allow_idle_steps", 0), 8 * len(case["v"]))
     with contextlib.redirect_stdout(stdout):
         rng = random.Random(case["sched_seed"] ^ 0x5EED)
         sched, info = H.run_scheduled(script, strategy, step_cap=max(40000, 12 * len(case["v"]) + 5000), line_p=case.get("line_p", 0.0), line_rng=rng,
@@ -250,6 +254,7 @@ def run_pipeline(case, data, tmpdir, script_override=None, decisions=None, strat
     reader = holder.get("reader")
     res.inner_blocks = list(reader.vf_blocks) if reader else []
     res.reads_started = reader.vf_reads_started if reader else 0
+    res.writer_backlog = max(sched.max_queue_depth, getattr(reader, "vf_max_idle_reads", 0) if reader else 0)
     res.outer_blocks = list(holder["proxy"].vf_seen) if "proxy" in holder else res.inner_blocks
     tw = holder.get("tw")
     res.detections = list(tw.detections) if tw else []
